@@ -24,6 +24,36 @@ CHECKS = {
         "exhaustive_thorough": False,
         "assumptions": ["leaf membership of a particle is read from the tree's leaf headers (validated separately by C06)", "held on the executions explored only; sanitizers are red-zone tools"],
     },
+    "C02": {
+        "level": EXPL,
+        "technique": "runtime monitoring: argument-checking recorder kernel (P-rec) at every operator callback, cross-checked by the exact polynomial kernel and the model's interaction multiset",
+        "claim": "On every explored execution every operator call received particles of the right leaf with unmodified data and original indices, distinct children of the stated parent with the true octant code, and sources at exactly the decoded relative offset, at the stated level; exploration over random trees, executors and orderings.",
+        "note": "Trusted: address->cell map built by walking the tree before execution; Morton octant convention as documented. Held on executions explored only.",
+        "jobs": [{"bin": "h_fmm", "mode": "c02"}],
+        "rule": "cases = random trees (Dim 1..4, heights 1..8, all distributions incl. face/corner/nextafter points, random box geometry, block sizes, both modes, Morton and periodic-Morton orderings) executed with Checked<P-poly>; every callback is checked (header<->index, particles inside leaf, data bit-identical to input, child/parent relation by address, octant and relative-offset codes, level arguments, counts). non-trivial = at least one M2L or P2P call; distinct = (Dim,height,ordering,block size,mode,upper,N,occupancy hash).",
+        "require_events": ["particles-checked", "elementary-interactions"],
+        "assumptions": ["operator arguments are observed at the user-kernel boundary only"],
+    },
+    "C08": {
+        "level": EXPL,
+        "technique": "runtime monitoring: recorded multiset of elementary interactions compared across groupings and with the model; bit-exact results with the polynomial kernel",
+        "claim": "For every explored input, all block sizes (1.., >= #leaves, automatic, TBFMM_BLOCK_SIZE) and both grouping modes produced the identical multiset of elementary interactions (equal to the model's), identical cell expansions and identical results.",
+        "note": "Trusted: recorder kernel and model. Number of operator calls is deliberately not compared (batching is legitimate).",
+        "jobs": [{"bin": "h_fmm", "mode": "c08"}],
+        "rule": "case = one random input executed under every block size of {1,2,3,5,8,...,#leaves,#leaves+1,1e7, automatic, automatic via TBFMM_BLOCK_SIZE} (all sizes 1..N+1 when N<=12) x both grouping modes; the sorted multiset (op, level, target, source, code), every multipole/local (by cell) and every result (by original index) must be identical across groupings and equal to model / direct sum. non-trivial = >= 2 occupied leaves and at least one M2L or P2P; distinct = input signature.",
+        "require_events": ["groupings", "elementary-interactions"],
+        "assumptions": [],
+    },
+    "C12": {
+        "level": EXPL,
+        "technique": "runtime monitoring of execute(flags) histories: recorder kernel (which operator, which level), byte snapshots of the tree between calls, bit-exact polynomial kernel",
+        "claim": "On every explored tree: each single flag called only its operator and wrote only its output kind; every ordered partition of the flags into stages respecting the dependency order (all 2^4 chain cuts x every placement of P2P, plus the documented 3-stage split) ended bit-identical to one full run; for every upper level 0..height no operator ran above it and the result equalled the model evaluated with that level.",
+        "note": "Trusted: recorder, snapshots by (level,coord) and by original index, model.",
+        "jobs": [{"bin": "h_fmm", "mode": "c12"}],
+        "rule": "cases cycle through three history families on random trees: single flags (6 runs), staged histories (quick 24 sampled incl. the documented split; thorough all %d), upper levels 0..height (height+1 runs with P-rec + P-set model). non-trivial = tree with >= 2 particles / far or near interactions / height >= 3 respectively; distinct = family + input signature.",
+        "require_events": ["single-flag-runs", "staged-histories", "upper-level-runs"],
+        "assumptions": [],
+    },
 }
 SPECIAL = {}
 NOT_CLAIMED = {}
